@@ -496,6 +496,7 @@ def install_script(ct, probes, tag):
 
 
 SELF = object()
+HUGE = ("huge", None)
 
 
 def compare_state_ints(a, b):
@@ -517,6 +518,10 @@ def check_kind(ctx, name, kind, thunk, values, probes):
     ct = t if isinstance(t, CTrait) else t.as_ctrait()
     host = PropHost()
     base_val = [outcome(ct.validate, host, "x", v) for (_i, _c, v) in values]
+    # cost control: a conversion that builds a giant object (bytes(2**31) is 2 GB of zeros) is
+    # evaluated once here and not again for every round-trip mode
+    base_val = [HUGE if (o[0] == "ok" and isinstance(o[1], (bytes, str, bytearray)) and len(o[1]) > 10 ** 6)
+                else o for o in base_val]
     base_install, _k0 = install_script(ct, probes, "orig")
     ctx.count("def_kinds")
     for mode, mclass, fn in MODES:
@@ -541,6 +546,9 @@ def check_kind(ctx, name, kind, thunk, values, probes):
         classes = set()
         if complaint is None:
             for (vid, vclass, v), ob in zip(values, base_val):
+                if ob is HUGE:
+                    ctx.count("def_huge_conversions_skipped")
+                    continue
                 ctx.ev()
                 ctx.count("def_validate_comparisons")
                 orr = outcome(rt.validate, host, "x", v)
